@@ -102,6 +102,10 @@ func fullValsOf(t *meta.Type, asList bool) []val.Value {
 		for _, id := range []string{"id-a", "id-b"} {
 			out = append(out, val.IdentRef{Label: id})
 		}
+	case val.FmtAny:
+		for _, thing := range []interface{}{"text", 1.5, true, map[string]interface{}{"a": 1.0, "b": []interface{}{1.0, "x", nil}, "c": map[string]interface{}{"d": "<&>\u2028"}}, []interface{}{}, []interface{}{map[string]interface{}{"k": "v"}}, map[string]interface{}{}} {
+			out = append(out, val.Any{Thing: thing})
+		}
 	case val.FmtEmpty:
 		out = append(out, val.NotEmpty)
 	case val.FmtBinary:
